@@ -428,6 +428,8 @@ def run(
     if isinstance(datapoints, dict) and isinstance(data_structures, (str, Path)):
         url_datapoints = {k: v for k, v in datapoints.items() if isinstance(v, str) and _is_url(v)}
         if url_datapoints:
+            # Fetched frames go into a copy: the caller's datapoints dict is left untouched
+            datapoints = dict(datapoints)
             url_ds, _, url_dfs = _handle_url_datapoints(
                 url_datapoints, data_structures, mapping_dict
             )
